@@ -313,7 +313,7 @@ theorem boundary_pos (g : Grid) (i : ℕ) (hi : i < g.n) (x v bMax : ℚ)
     (x + v * r.1 = r.2 ∨ x + v * r.1 = r.2 + g.L) := by
   have hs := g.hside
   have hidx : g.idx (g.cmin ((i + 1) % g.n)) = ((i + 1) % g.n : ℕ) :=
-    g.idx_eq le_rfl (by simp only [Grid.cmin]; push_cast; linarith)
+    g.idx_eq (Nat.mod_lt _ g.hn) le_rfl (by simp only [Grid.cmin]; push_cast; linarith)
   have key : ∀ sep : ℚ, 0 < sep → x + sep = g.cmin (i + 1) →
       0 < sep / v ∧ (∀ τ, 0 ≤ τ → τ < sep / v → g.cmin i ≤ x + v * τ ∧ x + v * τ < g.cmin (i + 1)) ∧
       x + v * (sep / v) = x + sep := by
@@ -369,7 +369,7 @@ theorem stays_in_cell_pos (g : Grid) (i : ℕ) (hi : i < g.n) (x v bMax : ℚ)
       rw [div_lt_iff₀ hL]; simp; linarith
     rw [this]; simp
   rw [hid]
-  exact g.idx_eq b0 b1
+  exact g.idx_eq hi b0 b1
 
 /-- **Cell-boundary event, negative direction, exact arithmetic.**  The handler aims at the lower
 neighbour's `cell_max`, for which only the constructor's post-condition is used
@@ -393,11 +393,11 @@ theorem boundary_neg_partial (g : Grid) (i : ℕ) (hi : i < g.n) (hn2 : 2 ≤ g.
   have hs := g.hside
   have hv' : 0 < -v := by linarith
   have hnv : ¬ (0 : ℚ) < v := by linarith
-  have hidx : g.idx cmaxPrev = ((i + g.n - 1) % g.n : ℕ) := g.idx_eq hc0 hc1
+  have hidx : g.idx cmaxPrev = ((i + g.n - 1) % g.n : ℕ) := g.idx_eq (Nat.mod_lt _ g.hn) hc0 hc1
   have hstay : ∀ τ, 0 ≤ τ → τ ≤ (x - g.cmin i) / (-v) → g.idx (x + v * τ) = i := by
     intro τ h0 h1
     rw [le_div_iff₀ hv'] at h1
-    apply g.idx_eq
+    apply g.idx_eq hi
     · nlinarith
     · nlinarith
   have key : ∀ sep : ℚ, x - g.cmin i < sep → 0 < sep / (-v) ∧ x + v * (sep / (-v)) = x - sep ∧
